@@ -150,7 +150,14 @@ func serveScenario(v6 bool, reads [][]byte) (outs [][]byte) {
 				invs = append(invs, invRec{orderKey6(reads, enc), [][]byte{ip, port, enc}})
 				mu.Unlock()
 			}
-			s, err := server6.NewServer("", nil, h, server6.WithConn(conn))
+			sopts := []server6.ServerOpt{server6.WithConn(conn)}
+			switch len(reads) % 3 { // the server's own logging configuration is part of "whatever arrives"
+			case 1:
+				sopts = append(sopts, server6.WithSummaryLogger())
+			case 2:
+				sopts = append(sopts, server6.WithDebugLogger())
+			}
+			s, err := server6.NewServer("", nil, h, sopts...)
 			if err != nil {
 				t.Fatal(err)
 			}
@@ -187,7 +194,14 @@ func serveScenario(v6 bool, reads [][]byte) (outs [][]byte) {
 				invs = append(invs, invRec{orderKey4(reads, m), [][]byte{u.IP, be16b(uint16(u.Port)), enc}})
 				mu.Unlock()
 			}
-			s, err := server4.NewServer("", nil, h, server4.WithConn(conn))
+			sopts := []server4.ServerOpt{server4.WithConn(conn)}
+			switch len(reads) % 3 {
+			case 1:
+				sopts = append(sopts, server4.WithSummaryLogger())
+			case 2:
+				sopts = append(sopts, server4.WithDebugLogger())
+			}
+			s, err := server4.NewServer("", nil, h, sopts...)
 			if err != nil {
 				t.Fatal(err)
 			}
